@@ -12,10 +12,10 @@
    log observed on the implementation ([drive], [drive_sound]) and compares what it
    computes with what was observed. *)
 From Eino Require Import Base.Util Model.StateLock Model.StateLockLTS Model.StateLockDrive Model.StateLockType
-  Model.StateLockCode Model.StatePlumb Model.StateAddNode.
+  Model.StateLockCode Model.StatePlumb Model.StateAddNode Model.StateTask.
 From Eino Require Import Proofs.StateLockLTS Proofs.StateLockVal Proofs.StateLockOrder Proofs.StateLockFlow
   Proofs.StateLockOwn Proofs.StateLockAcq Proofs.StateLockNest Proofs.StateLockLive Proofs.StateLockDrive Proofs.StateLock
-  Proofs.StateLockType Proofs.StateLockRun Proofs.StateLockCode Proofs.StatePlumb Proofs.StateAddNode.
+  Proofs.StateLockType Proofs.StateLockRun Proofs.StateLockCode Proofs.StatePlumb Proofs.StateAddNode Proofs.StateTask.
 From Coq Require Import Permutation Sorted.
 Open Scope N_scope.
 
@@ -376,6 +376,51 @@ Theorem state_handler_options_consistent :
     (hs = SPre -> wrapper_is w KPre = true) /\ (hs = SPost -> wrapper_is w KPost = true).
 Proof. exact handler_options_consistent. Qed.
 
+(* the task manager's treatment of a node's state handlers (programs of Model/StateTask.v = the loop of
+   taskManager.submit, the node call of taskManager.executor, the tail of taskManager.waitOne), for every
+   pre-processor, node and post-processor: the pre-handler is called exactly once on the task's input and
+   what it returns is what the node is called with; the post-handler exactly once on the node's output and
+   what it returns is the task's output; a skipped pre-handler and a failed node call neither; a failing
+   pre-handler fails the submit before the node is called *)
+Theorem task_handler_pipeline :
+  forall (X : Type) has_pre skip has_post (proc : tproc -> X -> X * bool) x d,
+    let runs := pre_runs has_pre skip in
+    let x1 := if runs then fst (proc TPre x) else x in
+    let pre_call := if runs then [(TPre, x)] else [] in
+    if runs && snd (proc TPre x) then
+      exists st, run_task X has_pre skip has_post proc x d = RFail st /\ ts_calls st = [(TPre, x)]
+    else
+      exists st, run_task X has_pre skip has_post proc x d = RRet st /\ ts_in st = x1 /\
+      if snd (proc TAction x1) then
+        ts_err st = true /\ ts_out st = fst (proc TAction x1) /\ ts_calls st = pre_call ++ [(TAction, x1)]
+      else if has_post then
+        ts_out st = fst (proc TPost (fst (proc TAction x1))) /\
+        ts_err st = snd (proc TPost (fst (proc TAction x1))) /\
+        ts_calls st = pre_call ++ [(TAction, x1); (TPost, fst (proc TAction x1))]
+      else
+        ts_out st = fst (proc TAction x1) /\ ts_err st = false /\ ts_calls st = pre_call ++ [(TAction, x1)].
+Proof. exact task_pipeline. Qed.
+
+(* ... and the transition system does the same with its registers: the store step of a critical section
+   puts the handler's result into the node's register; after a pre-handler that is the node's input, after
+   a post-handler the final output, after a ProcessState callback what the lambda goes on with *)
+Theorem handler_result_is_the_register :
+  forall (S X : Type) (gen : nat -> S) (hfun : kind -> N -> X -> S -> X * S) (lout : N -> X -> X)
+         (mrg : list X -> X) (f : forest) (x0 : X) (c : config S X) i n J a p l k x o r,
+    lookup S X f c i n = Some (J, a, mkNs p (Some (CsLoaded l))) ->
+    next_cs X a p = Some k -> pos_x X p = Some x -> i_obj J = Some o -> nth_error (c_objs c) o = Some r ->
+    pstep S X gen hfun lout mrg f x0 c (ChStore i n) =
+    Some (set_inst S X (add_trace S X (set_obj S X c o (with_val S r (snd (hfun k (n_id a) x l))))
+                                  (mkT o i a k x l (fst (hfun k (n_id a) x l)))) i
+                   (set_ns S X J n (mkNs (set_x X p (fst (hfun k (n_id a) x l))) (Some CsStored)))).
+Proof. exact store_sets_register. Qed.
+
+Theorem register_after_handler : forall (X : Type) (x x' : X) (j : nat),
+  after_cs X (set_x X (PReady x) x') = PPred x' /\
+  after_cs X (set_x X (PDone x) x') = PFin x' /\
+  after_cs X (set_x X (PRun x j) x') = PRun x' (Datatypes.S j).
+Proof. exact handler_result_is_register. Qed.
+
 Print Assumptions reach_included.
 Print Assumptions mutex.
 Print Assumptions held_lock_released.
@@ -405,6 +450,9 @@ Print Assumptions resume_step_is_save_then_resume.
 Print Assumptions stateless_graph_keeps_parent_context.
 Print Assumptions build_err_is_add_node_decision.
 Print Assumptions state_handler_options_consistent.
+Print Assumptions task_handler_pipeline.
+Print Assumptions handler_result_is_the_register.
+Print Assumptions register_after_handler.
 
 (* ------------------------------------------------------------------ non-vacuity *)
 
@@ -618,3 +666,11 @@ Proof.
   split; [|reflexivity].
   constructor; [|constructor]. eexists. split; [vm_compute; reflexivity|]. vm_compute. reflexivity.
 Qed.
+
+Example ex_task_pipeline :
+  let proc := fun p (x : nat) => match p with TPre => (x + 1, false) | TAction => (2 * x, false) | TPost => (x + 100, false) end%nat in
+  match run_task nat true false true proc 5%nat 0%nat with
+  | RRet st => ts_out st = 112%nat /\ ts_calls st = [(TPre, 5); (TAction, 6); (TPost, 12)]%nat
+  | _ => False
+  end.
+Proof. vm_compute. split; reflexivity. Qed.
